@@ -685,6 +685,24 @@ func (p *probe) seqLevel(cfg bcfg, unknown []int, ranks []string) {
 					c.Violate("seq-clade-slot:"+cl+"-in-"+tcl, fmt.Sprintf("predicate IsSubCladeOfSlot on a sequence of taxid %d, slot %d = %v", id, T, got), d)
 				}
 			}
+			// a slot that does not name a taxon of the taxonomy (what `obiannotate --taxon-at-rank`
+			// writes when the rank is missing: -1) selects nothing, whatever the taxid of the sequence
+			var bad any = []any{-1, 0, "NA", "", "taxon:x"}[r.Intn(5)]
+			if len(unknown) > 0 && r.Intn(2) == 0 {
+				bad = unknown[r.Intn(len(unknown))]
+			}
+			id, x, cl := p.pickID(unknown, k%4 == 3)
+			s := mkseq("s", id)
+			s.SetAttribute("clade_ref", bad)
+			p.op, p.class, p.nodes = "Taxonomy.IsSubCladeOfSlot", cl+"-in-non-taxon-slot", []int{x}
+			got := slot(s)
+			p.ev++
+			p.kc.key("seqclade-badslot/%s/%T", cl, bad)
+			if got {
+				d := describe(t, x, x)
+				d["sequence_taxid"], d["slot_value"] = id, bad
+				c.Violate("seq-clade-slot:non-taxon-slot", fmt.Sprintf("predicate IsSubCladeOfSlot selects a sequence of taxid %d whose slot holds %v, not a taxon", id, bad), d)
+			}
 		}
 	})
 
